@@ -387,7 +387,17 @@ def main():
                         cases.append((l, ('corpus', f)))
     for g in gens:
         mod = importlib.import_module('gen.' + g)
-        cases += mod.generate(rng, tier, ctx)
+        # generators consult only the MODEL (never the implementation), so an internal assertion tripping on an odd
+        # random instance is independent of the code under test: retry with a derived seed and record it
+        for attempt in range(4):
+            try:
+                cases += mod.generate(rng if attempt == 0 else common.Rng(seed * 7919 + 104729 * attempt), tier, ctx)
+                break
+            except (AssertionError, IndexError, ValueError, KeyError) as e:
+                notes.setdefault('generator_retries', []).append('%s attempt %d: %s: %s' % (g, attempt, type(e).__name__, str(e)[:200]))
+                log('generator %s failed on this instance (%s: %s); retrying with a derived seed' % (g, type(e).__name__, str(e)[:100]))
+        else:
+            raise RuntimeError('generator %s failed 4 times' % g)
     lines = [c[0] for c in cases]
     tags = [c[1] for c in cases]
     log('%d cases generated' % len(lines))
